@@ -34,8 +34,10 @@ CHAR_REFS = {
     ("gen", "id_q_capability_characteristic"): ("q_capability_curve_table", "id_q_capability_curve"),
     ("sgen", "id_q_capability_characteristic"): ("q_capability_curve_table", "id_q_capability_curve"),
 }
-NO_UNIQUE = ("group", "trafo_characteristic_table", "shunt_characteristic_table", "q_capability_curve_table",
-             "trafo_characteristic_spline", "shunt_characteristic_spline", "q_capability_characteristic")
+NO_UNIQUE = ("group",)      # documented: one group = several rows with the same index
+# tables whose row labels carry no meaning (rows are addressed through an id column): duplicates are repaired by
+# renumbering, not by dropping rows
+ROWLABEL_FREE = ("trafo_characteristic_table", "shunt_characteristic_table", "q_capability_curve_table")
 
 
 def input_tables(net):
@@ -248,7 +250,10 @@ def repair(net, max_rounds=6):
         if dups:
             for v in dups:
                 t = v["table"]
-                net[t] = net[t][~net[t].index.duplicated(keep="first")]
+                if t in ROWLABEL_FREE:
+                    net[t] = net[t].reset_index(drop=True)
+                else:
+                    net[t] = net[t][~net[t].index.duplicated(keep="first")]
             continue
         for v in vs:
             kind, t = v["kind"], v["table"]
